@@ -165,10 +165,16 @@ def case_composite(c):
 def nonrigid(c, g):
     cls = getattr(S, c["cls"])
     kw = {}
-    if "stride" in c:
-        kw["stride"] = c["stride"]
-    if "steps" in c:
-        kw["steps"] = c["steps"]
+    for k in ("stride", "steps", "resize"):
+        if k in c:
+            kw[k] = c[k]
+    if "param_seed" in c:
+        # parameters of whatever shape the class derives from (grid, stride): seeded dyadic values (exact in float32)
+        t = cls(g, groups=c.get("N", 1), **kw)
+        gen = torch.Generator().manual_seed(int(c["param_seed"]))
+        with torch.no_grad():
+            t.params.copy_(torch.randint(-8, 9, t.params.shape, generator=gen).to(torch.float32) / 32)
+        return t
     return cls(g, params=torch.tensor(c["params"], dtype=torch.float32), **kw)   # B-spline kernels are float32
 
 
@@ -183,7 +189,12 @@ def case_nonrigid(c):
         pts = T(c["points"])
         out["fwd"] = t(pts).tolist()
         d = t.disp().to(F64)
-        out["disp_is_u"] = bool(torch.equal(d, u))
+        out["disp_is_u"] = bool(d.shape == u.shape and torch.equal(d, u))
+        out["disp_own"] = d.tolist()
+        out["flow_is_disp"] = bool(torch.equal(t.flow().tensor().to(F64), d))
+        xl = g.coords().to(F64).unsqueeze(0)
+        out["own_lattice_fwd"] = t(xl).tolist()
+        out["own_lattice"] = xl[0].tolist()
         if c.get("resize_to"):
             g2 = g.resize(tuple(c["resize_to"]))
             out["disp_resized"] = t.disp(g2).to(F64).tolist()
@@ -215,7 +226,29 @@ def case_warp(c):
     return out
 
 
-KINDS = {"fresh": case_fresh, "linear": case_linear, "composite": case_composite, "nonrigid": case_nonrigid, "warp": case_warp}
+def case_seqgrid(c):
+    """SequentialTransform(linear, displacement field): lattice with and without grid=True, and ImageTransformer"""
+    g = mk_grid(c["grid"])
+    lin = mk_linear(c["linear"], g)
+    ddf = S.DisplacementFieldTransform(g, params=torch.tensor(c["u"], dtype=torch.float32))
+    seq = S.SequentialTransform(g, lin, ddf)
+    out = {"grid": grid_out(g)}
+    with torch.no_grad():
+        seq.update()
+        out["M"] = lin_tensor(lin).tolist()
+        out["u"] = ddf.tensor().to(F64).tolist()
+        x = g.coords().to(F64).unsqueeze(0)
+        out["lattice"] = x[0].tolist()
+        out["fwd"] = seq(x)[0].tolist()
+        out["fwd_grid"] = seq(x, grid=True)[0].tolist()
+        tg, src = mk_grid(c["target"]), mk_grid(c["source"])
+        out["target"], out["source"] = grid_out(tg), grid_out(src)
+        it = S.ImageTransformer(seq, target=tg, source=src, padding=c["padding"])
+        out["out"] = it(T(c["image"])).to(F64).tolist()
+    return out
+
+
+KINDS = {"seqgrid": case_seqgrid, "fresh": case_fresh, "linear": case_linear, "composite": case_composite, "nonrigid": case_nonrigid, "warp": case_warp}
 
 
 def run_cases(p):
@@ -475,7 +508,8 @@ def oracle(p):
                     # compare only where T(x) stays inside the transform domain (non-rigid fields are border-extended)
                     # non-rigid fields: compare inside the hull of the sample centres only (beyond it the views use different
                     # extrapolation conventions: border replication for points, the sampler's padding for resampled fields)
-                    band = 1.0 - 1.5 / float(min(int(v) for v in g.size()))
+                    nmin = min(int(v) for v in g.size()) if t.linear else min(int(v) for v in t.tensor().shape[2:])   # coarse buffers: fewer sample centres
+                    band = 1.0 - 1.5 / float(nmin)
                     inside = (g.transform_points(xow, Axes.WORLD, to_axes=Axes.CUBE, decimals=None).abs().amax(-1) < band)
                     if t.linear:
                         inside = torch.ones_like(inside)
@@ -491,6 +525,40 @@ def oracle(p):
         except Exception as e:  # noqa
             fail(f"C06:{name}:views:raises:{type(e).__name__}", f"{name}: evaluating the views raises {type(e).__name__}: {str(e)[:200]}", cls=name, D=D,
                  trace=traceback.format_exc(limit=2)[-400:])
+    # ---- 2b. coarse parameter lattices: stride > 1 x resize x align_corners x class, own-grid disp()/flow()/tensor() vs the point map
+    for name in NONRIGID:
+        ff = "FreeForm" in name
+        for D in (2, 3):
+            for stride in (2, 3):
+                for resize in ((None,) if ff else (False, True)):
+                    for ac in ((True,) if ff else (False, True)):
+                        g = Grid(size=[rng.randint(6, 9) for _ in range(D)], spacing=[rng.choice([0.5, 1.0, 2.0]) for _ in range(D)], align_corners=ac)
+                        try:
+                            kw = {"stride": stride} if ff else {"stride": stride, "resize": resize}
+                            t = getattr(S, name)(g, **kw)
+                            with torch.no_grad():
+                                t.params.copy_((torch.rand(t.params.shape) - 0.5) * 0.2)
+                                t.update()
+                                xg = g.coords().unsqueeze(0)
+                                yp = t(xg)
+                                d = t.disp()
+                                note("strided")
+                                cfg = f"stride={stride}, resize={resize}, align_corners={ac}, D={D}"
+                                if tuple(d.shape[2:]) != tuple(g.shape):
+                                    fail(f"C06:{name}.disp:own-grid:shape", f"{name}({cfg}).disp() has shape {tuple(d.shape)}", cls=name)
+                                    continue
+                                dd = float((xg + d.movedim(1, -1) - yp).abs().max())
+                                if dd > 1e-4:
+                                    kind = "coarse-buffer" if tuple(t.tensor().shape[2:]) != tuple(g.shape) else "resized-buffer"
+                                    fail(f"C06:SpatialTransform.disp:nonrigid:own-grid:{kind}:differs-from-point-map",
+                                         f"{name}({cfg}): x + disp()(x) differs from transform(x) at the own lattice points by {dd:.3g} cube units", cls=name, cfg=cfg)
+                                if not torch.equal(t.flow().tensor(), d):
+                                    fail(f"C06:{name}.flow:differs-from-disp", f"{name}({cfg}): flow().tensor() is not disp()", cls=name)
+                                dd = float((t(xg, grid=True) - yp).abs().max())
+                                if dd > 1e-4:
+                                    fail(f"C06:SpatialTransform.forward:nonrigid:grid-flag:differs", f"{name}({cfg}): transform(lattice, grid=True) differs from transform(lattice) by {dd:.3g}", cls=name, cfg=cfg)
+                        except Exception as e:  # noqa
+                            fail(f"C06:{name}:strided:raises:{type(e).__name__}", f"{name}(stride={stride}, resize={resize}, ac={ac}, D={D}) raises {type(e).__name__}: {str(e)[:200]}", cls=name)
     # ---- 3. composites
     for i in range(max(20, n // 3)):
         D = rng.choice([2, 3])
@@ -621,13 +689,18 @@ def oracle(p):
                     # only where T(x) lies inside the source image and x inside the transform domain
                     yi = src.transform_points(yw.double(), Axes.WORLD, to_axes=Axes.CUBE, decimals=None).abs().amax(-1)
                     xi = g.transform_points(xw[0].double(), Axes.WORLD, to_axes=Axes.CUBE, decimals=None).abs().amax(-1)
-                    band = 1.0 - 1.5 / float(min(int(v) for v in g.size()))
+                    nmin = min(int(v) for v in g.size())
+                    for m_ in ([t] if not isinstance(t, S.CompositeTransform) else list(t.transforms())):
+                        if not m_.linear:
+                            nmin = min(nmin, min(int(v) for v in m_.tensor().shape[2:]))
+                    band = 1.0 - 1.5 / float(nmin)
                     ok = (yi < 0.9) & ((xi < band) | torch.tensor(bool(t.linear)))
                     note("warp-" + kind)
                     if ok.any():
                         dd = float(((out - exp).abs() * ok).max())
                         if dd > 5e-4 * (1 + float(exp.abs().max())):
-                            k = "linear" if t.linear else ("sequence" if seq is not None else "nonrigid")
+                            # a sequence whose FIRST member is non-rigid shares the root cause of the plain non-rigid case
+                            k = "linear" if t.linear else ("sequence" if seq is not None and seq[0] not in NONRIGID else "nonrigid")
                             fail(f"C06:ImageTransformer.forward:{k}:target-{kind}", f"ImageTransformer({name}, target={kind}): output differs from image(T(x)) by {dd:.3g} "
                                  f"(ramp image, linear interpolation)", cls=name, D=D, kind=kind)
             except Exception as e:  # noqa
